@@ -405,7 +405,7 @@ pub fn miri_main(what: &str) -> i32 {
                     }
                     cases += 1;
                     let d = |w: u8, r: u8| mux::DirPlan { chunks: sizes.clone(), write_api: w, read_api: r, read_bufs: vec![50, 4096] };
-                    let case = mux::MuxCase { seed: k as u64, streams: vec![(d(0, 0), d(1, 1)), (d(2, 2), d(0, 0))], c2s: pc.clone(), s2c: pc, scheme: None, sched_p: 0.3, inline_first: true, locator: (0, k), concurrent_opens: false, half_close: if k == 0 { vec![1, 0] } else { vec![] }, eager_server: k == 2 };
+                    let case = mux::MuxCase { seed: k as u64, streams: vec![(d(0, 0), d(1, 1)), (d(2, 2), d(0, 0))], c2s: pc.clone(), s2c: pc, scheme: None, sched_p: 0.3, inline_first: true, locator: (0, k), concurrent_opens: false, half_close: if k == 0 { vec![1, 0] } else { vec![] }, eager_server: k == 2, stall: None };
                     let res = mux::run_case(&case);
                     bytes += res.bytes_checked;
                     for (c, sym, det) in &res.problems {
